@@ -4,7 +4,7 @@
    get_rank / get_quantile / get_CDF / get_PMF / serialize / deserialize; vs is the ghost list of accepted (non-NaN) values,
    merged digests included. *)
 From Coq Require Import ZArith List Bool QArith Lia Sorting.Sorted.
-From DS Require Import RunnerLib TDigestDefs TDigestProofs.
+From DS Require Import RunnerLib TDigestDefs TDigestProofs TDigestQuantile.
 Import ListNotations.
 
 (* ---- for ANY number structure (binary64 with NaN and infinities included) ---- *)
@@ -66,31 +66,59 @@ Section Exact.
     - exists f, t. repeat split; auto. exact (ci_first _ _ _ _ C f t Ef).
     - exists la, t2. repeat split; auto. exact (ci_last _ _ _ _ C la t2 El).
   Qed.
+  (* get_quantile (interpolation as repaired by fixes/17_quantile_weights.patch and 17_weighted_average_clamp.patch; the code
+     as found is refuted in Regression_tdigest.v): always within [min, max], non-decreasing in the rank, and
+     quantile(0) = min, quantile(1) = max — for every reachable digest, any normaliser, exact arithmetic *)
+  Theorem C17_quantile_range : forall s vs r q, reachable QO s vs -> bounded pinf ninf vs ->
+    snd (td_quantile QO s r) = Some q -> t_min QO s <= q /\ q <= t_max QO s.
+  Proof. intros s vs r q H B. exact (td_quantile_range ln pinf ninf s vs r q (reach_inv ln pinf ninf s vs H B)). Qed.
+
+  Theorem C17_quantile_monotone : forall s vs r1 r2 q1 q2, reachable QO s vs -> bounded pinf ninf vs -> r1 <= r2 ->
+    snd (td_quantile QO s r1) = Some q1 -> snd (td_quantile QO s r2) = Some q2 -> q1 <= q2.
+  Proof. intros s vs r1 r2 q1 q2 H B. exact (td_quantile_mono ln pinf ninf s vs r1 r2 q1 q2 (reach_inv ln pinf ninf s vs H B)). Qed.
+
+  Theorem C17_quantile_ends : forall s vs, reachable QO s vs -> bounded pinf ninf vs -> vs <> [] ->
+    exists q0 q1, snd (td_quantile QO s 0) = Some q0 /\ snd (td_quantile QO s 1) = Some q1 /\
+                  q0 == t_min QO s /\ q1 == t_max QO s.
+  Proof. intros s vs H B. exact (td_quantile_ends ln pinf ninf s vs (reach_inv ln pinf ninf s vs H B)). Qed.
 End Exact.
 
-(* ---- non-vacuity: a concrete history over Q (normaliser 2k/24, i.e. ln = 0) ---- *)
+(* ---- non-vacuity: a concrete history over Q (k = 10, normaliser 2k/24, i.e. ln = 0): 30 updates, then compress ---- *)
 Definition ex_ops := qops (fun _ => 0) 1000 (-1000).
 Definition ex_new : td ex_ops := @Build_td ex_ops 10 false 1000 (-1000) [] 0 [].
 Example ex_new_is_new : td_new ex_ops 10 = Some ex_new.
 Proof. reflexivity. Qed.
 Definition ex_vals (n : nat) : list Q := map (fun i => inject_Z (Z.of_nat ((i * 37) mod 101))) (seq 0 n).
-Definition ex_digest : td ex_ops := td_compress ex_ops (fold_left (td_update ex_ops) (ex_vals 150) ex_new).
+Definition ex_digest : td ex_ops := td_compress ex_ops (fold_left (td_update ex_ops) (ex_vals 30) ex_new).
+
+Lemma ex_reach_aux : forall vs s acc, reachable ex_ops s acc ->
+  reachable ex_ops (fold_left (td_update ex_ops) vs s) (acc ++ vs).
+Proof.
+  induction vs as [|v vs IH]; intros s acc H; simpl.
+  - rewrite app_nil_r. exact H.
+  - pose proof (IH (td_update ex_ops s v) (acc ++ [v]) (R_update ex_ops s acc v H)) as X.
+    rewrite <- app_assoc in X. exact X.
+Qed.
+Example ex_reachable : reachable ex_ops ex_digest (ex_vals 30).
+Proof. apply R_compress. apply (ex_reach_aux (ex_vals 30) ex_new []). exact (R_new ex_ops 10 ex_new ex_new_is_new). Qed.
+Example ex_bounded : bounded 1000 (-1000) (ex_vals 30).
+Proof. repeat constructor; discriminate. Qed.
 
 Example C17_nonvacuous :
-  td_total ex_ops ex_digest = 150%Z /\ Qeq_bool (t_min ex_ops ex_digest) 0 = true /\ Qeq_bool (t_max ex_ops ex_digest) 100 = true /\
-  (length (t_cents ex_ops ex_digest) <? 150)%nat = true /\
-  existsb (fun c => (1 <? c_w ex_ops c)%Z) (t_cents ex_ops ex_digest) = true.
+  td_total ex_ops ex_digest = 30%Z /\ Qeq_bool (t_min ex_ops ex_digest) 0 = true /\ Qeq_bool (t_max ex_ops ex_digest) 97 = true /\
+  length (t_cents ex_ops ex_digest) = 10%nat /\
+  map (c_w ex_ops) (t_cents ex_ops ex_digest) = [1; 1; 2; 4; 7; 7; 4; 2; 1; 1]%Z.
 Proof. vm_compute. repeat split; reflexivity. Qed.
 
-(* KNOWN DEFECT reproduced in the model: get_quantile as coded is NOT monotone (interpolation weights swapped).
-   The intended theorem "r1 <= r2 -> quantile r1 <= quantile r2" is therefore refuted, on a reachable digest. *)
-Theorem C17_quantile_monotone_refuted :
-  exists r1 r2 q1 q2, r1 < r2 /\
-    snd (td_quantile ex_ops ex_digest r1) = Some q1 /\ snd (td_quantile ex_ops ex_digest r2) = Some q2 /\ q2 < q1.
-Proof.
-  exists (30 # 100), (31 # 100).
-  eexists. eexists. split; [reflexivity|]. split; [vm_compute; reflexivity|]. split; [vm_compute; reflexivity|]. vm_compute. reflexivity.
-Qed.
+(* the quantile theorems are not vacuous: on the example digest get_quantile answers, strictly increases between ranks 0.25 and
+   0.30 (both fall between the centroids of weight 4 and 7, where the code as found DEcreased) and hits min and max *)
+Example C17_quantile_nonvacuous :
+  match snd (td_quantile ex_ops ex_digest (25 # 100)), snd (td_quantile ex_ops ex_digest (30 # 100)),
+        snd (td_quantile ex_ops ex_digest 0), snd (td_quantile ex_ops ex_digest 1) with
+  | Some a, Some b, Some c, Some d => Qle_bool b a = false /\ Qeq_bool c 0 = true /\ Qeq_bool d 97 = true
+  | _, _, _, _ => False
+  end.
+Proof. vm_compute. repeat split; reflexivity. Qed.
 
 Print Assumptions C17_weight.
 Print Assumptions C17_centroids_weight.
@@ -99,4 +127,6 @@ Print Assumptions C17_min_max_exact.
 Print Assumptions C17_sorted.
 Print Assumptions C17_extremes_singletons.
 Print Assumptions C17_extremes_are_min_max.
-Print Assumptions C17_quantile_monotone_refuted.
+Print Assumptions C17_quantile_range.
+Print Assumptions C17_quantile_monotone.
+Print Assumptions C17_quantile_ends.
